@@ -27,7 +27,9 @@ ASSUMPTIONS = ["forecasts / thresholds are dyadic in [0, 1.25] (including values
                "rounded to that dtype, and their neighbours) and as int64 / int32 / int8 / uint8 / bool arrays of 0/1, obs "
                "also as integer / bool / float32 / float16; thresholds stay float64; the exact value of every stored "
                "number is what Lean receives (float32(0.7) < 0.7 is not an event at 0.7)",
-               "no dask input (F14 belongs to C04); fcst / obs / weights share coordinate labels in the same order",
+               "no dask input (F14 belongs to C04); fcst / obs / weights carry the same SET of labels on a shared dimension, "
+               "stored in any order per operand (labels 0..n-1, descending latitudes, unsorted floats, strings): the "
+               "expectation is computed from the label-aligned arrays, the result is read by label",
                "float rounding is not modelled"]
 MANIFEST = dict(
     level="proof",
@@ -54,7 +56,10 @@ MANIFEST = dict(
          "correspondence on dyadic inputs with tolerance 1e-9; SV.Fl (IEEE minus rounding, overflow, signed zero); the "
          "harness groups the cells that are summed per preserved index (gather_dimensions is C01). Not proved, only compared: "
          "the argument-check model (`raises`), the element-wise discretisation code of discretise.py (model `disc`). "
-         "Not modelled: dask input (F14, C04), differently ordered coordinates, non-binary observations with check_args=False.",
+         "Not modelled: dask input (F14, C04), operands with different label sets (inner join), non-binary observations "
+         "with check_args=False. Operands storing the labels of a shared dimension in different orders (weights north-to-south, "
+         "data south-to-north) are compared by harness and oracle only: the Lean model / spec receive the label-aligned "
+         "(forecast, observation, weight) triples.",
     technique="Lean 4 theorems over a hand model + differential correspondence + exact counting / Mann-Whitney oracle",
     design="6/C14")
 RULE = ("one case = (forecast array from a 5-value pool so most values coincide with a threshold -- in 30 % of the calls "
@@ -62,7 +67,9 @@ RULE = ("one case = (forecast array from a 5-value pool so most values coincide 
         "check_args; in 1/3 of the calls obs carries a dimension the forecast lacks and the forecast possibly one obs "
         "lacks, weights on any of them or on a dimension of their own; a further stream stores the forecast as float32 / "
         "float16 with values = non-representable float64 thresholds (tenths, thirds) rounded to that dtype or a neighbour, "
-        "or as int / bool 0/1, and obs possibly as int / bool / narrow float); distinct = distinct canonical call; non-trivial = some non-NaN "
+        "or as int / bool 0/1, and obs possibly as int / bool / narrow float; another stream lets the weights (85 %), obs or "
+        "the forecast store the labels of a shared dimension reversed / rotated / shuffled, weights non-constant along it, plus a "
+        "sweep n = 2..5 with skill varying along the re-ordered dimension); distinct = distinct canonical call; non-trivial = some non-NaN "
         "POD or POFD and not malformed")
 
 NAN = float("nan")
@@ -74,13 +81,19 @@ def sizes(call):
     return dict(zip(call["dims"], call["shape"]))
 
 
-def build(call):
+def build(call, canonical=False):
     """`dims` / `shape` describe the union of the dimensions of the three operands; each operand carries its own
-    subset (`fcst_dims`, `obs_dims`, `weights_dims`; default: all of `dims`)"""
+    subset (`fcst_dims`, `obs_dims`, `weights_dims`; default: all of `dims`).  The value lists are given in the order of
+    the labels `labels[dim]` (default 0..n-1); `store_order[operand][dim]` (a permutation of the positions) is the
+    order in which that operand STORES its labels along dim -- the same labelled array, laid out differently, e.g.
+    latitude weights north-to-south against a south-to-north forecast.  canonical=True: without the re-ordering (the
+    label-aligned arrays the expectation is computed from)."""
     size = sizes(call)
-    coords = {d: list(range(n)) for d, n in size.items()}
+    labels = call.get("labels") or {}
+    coords = {d: list(labels.get(d, range(n))) for d, n in size.items()}
+    order = {} if canonical else (call.get("store_order") or {})
 
-    def arr(vals, ds, dtype=None):
+    def arr(vals, ds, dtype=None, who=None):
         ds = list(ds)
         a = np.array(vals, dtype=float).reshape(tuple(size[d] for d in ds))
         if dtype is not None and dtype != "float64":
@@ -90,13 +103,17 @@ def build(call):
             if not np.array_equal(b.astype(float), a, equal_nan=True):
                 raise AssertionError("harness: values not representable in " + str(dtype))
             a = b
-        return xr.DataArray(a, dims=ds, coords={d: coords[d] for d in ds})
+        da = xr.DataArray(a, dims=ds, coords={d: coords[d] for d in ds})
+        perm = {d: [int(i) for i in p] for d, p in (order.get(who) or {}).items() if d in ds}
+        if perm:
+            da = da.isel(perm).copy(deep=True)
+        return da
 
-    f = arr(call["fcst"], call.get("fcst_dims", call["dims"]), call.get("fcst_dtype"))
-    o = arr(call["obs"], call.get("obs_dims", call["dims"]), call.get("obs_dtype"))
+    f = arr(call["fcst"], call.get("fcst_dims", call["dims"]), call.get("fcst_dtype"), "fcst")
+    o = arr(call["obs"], call.get("obs_dims", call["dims"]), call.get("obs_dtype"), "obs")
     w = None
     if call.get("weights") is not None:
-        w = arr(call["weights"], call["weights_dims"])
+        w = arr(call["weights"], call["weights_dims"], None, "weights")
     return f, o, w
 
 
@@ -138,9 +155,11 @@ def groups(call):
     """[(index of the preserved dims, [[f, o, w|None], ...])] in row-major order of the preserved dims; every operand
     is broadcast to the union of the dimensions, so a slice along a dimension that only one operand carries pairs
     that operand's slice with the whole of the others"""
-    f, o, w = build(call)
+    f, o, w = build(call, canonical=True)
     dims = list(call["dims"])
-    full = xr.DataArray(np.zeros(tuple(call["shape"])), dims=dims, coords={d: list(range(n)) for d, n in sizes(call).items()})
+    lab = call.get("labels") or {}
+    full = xr.DataArray(np.zeros(tuple(call["shape"])), dims=dims,
+                        coords={d: list(lab.get(d, range(n))) for d, n in sizes(call).items()})
     fb = xr.broadcast(f, full)[0].transpose(*dims).values
     ob = xr.broadcast(o, full)[0].transpose(*dims).values
     wb = None
@@ -176,6 +195,10 @@ def run_impl(call):
                     "pod": np.asarray(r["POD"].values, dtype=float).tolist(),
                     "pofd": np.asarray(r["POFD"].values, dtype=float).tolist(),
                     "auc": np.asarray(r["AUC"].values, dtype=float).tolist()}
+    if call.get("store_order") or call.get("labels"):
+        # the result may list the labels of a kept dimension in the storage order of any operand: read it by label
+        lab = call.get("labels") or {}
+        r = r.reindex({d: list(lab.get(d, range(sizes(call)[d]))) for d in P})
     pod = np.asarray(r["POD"].transpose(*P, "threshold").values, dtype=float).reshape(-1, nt)
     pofd = np.asarray(r["POFD"].transpose(*P, "threshold").values, dtype=float).reshape(-1, nt)
     auc = np.asarray(r["AUC"].transpose(*P).values, dtype=float).reshape(-1)
@@ -422,6 +445,138 @@ def gen_dtype_call(rng, complete=False, layout=None, kind=None):
     return call
 
 
+# ---- storage order of the coordinate labels.  xarray lines operands up by LABEL: an operand that stores the same labels
+# in another order (weights built north-to-south for a south-to-north grid, obs read from a file sorted the other way)
+# is the same labelled array, so every point must be what the label-aligned arrays give.
+LABEL_STYLES = ["int", "int", "lat-descending", "float-unsorted", "str"]
+
+
+def make_labels(rng, n, style):
+    if style == "lat-descending":
+        top = rng.choice([90.0, 60.0, 45.5, 10.0])
+        return [top - 22.5 * i for i in range(n)]
+    if style == "float-unsorted":
+        xs = [0.5 * i - 1.0 for i in range(n)]
+        rng.shuffle(xs)
+        return xs
+    if style == "str":
+        return ["p%d" % i for i in range(n)]
+    return list(range(n))
+
+
+def make_perm(rng, n):
+    """a permutation of range(n) that is not the identity (n >= 2): mostly the reversal"""
+    r = rng.random()
+    if r < 0.5 or n == 2:
+        return list(range(n))[::-1]
+    if r < 0.7:
+        k = rng.randrange(1, n)
+        return list(range(k, n)) + list(range(k))
+    while True:
+        p = list(range(n))
+        rng.shuffle(p)
+        if p != list(range(n)):
+            return p
+
+
+def gen_order_call(rng, complete=False, base=None):
+    """a call in which an operand stores the labels of a shared dimension in another order than the forecast does:
+    mostly the weights (made non-constant along that dimension, forecasts / obs varying along it), also obs or the
+    forecast itself; labels are 0..n-1, descending latitudes, unsorted floats or strings"""
+    for _ in range(50):
+        call = base(rng) if base is not None else (gen_dtype_call(rng, complete=complete) if rng.random() < 0.15 else
+                                                    gen_call(rng, complete=complete, hairy=rng.random() < 0.15))
+        size = sizes(call)
+        if any(n >= 2 for d, n in size.items() if d in data_dims(call)):
+            break
+    size = sizes(call)
+    fd = list(call.get("fcst_dims", call["dims"]))
+    od = list(call.get("obs_dims", call["dims"]))
+    big = [d for d in data_dims(call) if size[d] >= 2]
+    if big and (call.get("weights") is None or not any(d in big for d in call["weights_dims"])) and rng.random() < 0.8:
+        # weights along a data dimension with at least two labels
+        wd = [rng.choice(big)]
+        if rng.random() < 0.3:
+            both = set(wd) | {rng.choice(data_dims(call))}
+            wd = [d for d in call["dims"] if d in both]
+        if call.get("weights") is not None:
+            # drop a dimension only the previous weights carried
+            keep = [i for i, d in enumerate(call["dims"]) if d in data_dims(call)]
+            call["dims"] = [call["dims"][i] for i in keep]
+            call["shape"] = [call["shape"][i] for i in keep]
+        call["weights_dims"] = wd
+        wn = int(np.prod([size[d] for d in wd]))
+        call["weights"] = [rng.choice([0.0, 0.5, 1.0, 2.0, 3.0, 4.0]) if rng.random() < 0.95 else NAN for _ in range(wn)]
+    if call.get("weights") is not None and len(set(call["weights"])) == 1 and len(call["weights"]) >= 2:
+        ws = [0.5, 1.0, 2.0, 3.0, 4.0, 0.25]
+        start = rng.randrange(len(ws))
+        call["weights"] = [ws[(start + i) % len(ws)] for i in range(len(call["weights"]))]
+    size = sizes(call)
+    operands = {"fcst": fd, "obs": od}
+    if call.get("weights") is not None:
+        operands["weights"] = list(call["weights_dims"])
+    order = {}
+    who_p = {"weights": 0.85, "obs": 0.25, "fcst": 0.2}
+    for who, ds in operands.items():
+        for d in ds:
+            shared = sum(1 for x in operands.values() if d in x) >= 2
+            if size[d] >= 2 and shared and rng.random() < who_p[who]:
+                order.setdefault(who, {})[d] = make_perm(rng, size[d])
+    if not order:
+        cand = [(who, d) for who, ds in operands.items() for d in ds if size[d] >= 2]
+        if cand:
+            who, d = rng.choice([c for c in cand if c[0] == "weights"] or cand)
+            order = {who: {d: make_perm(rng, size[d])}}
+    if order:
+        call["store_order"] = order
+    style = rng.choice(LABEL_STYLES)
+    if style != "int":
+        call["labels"] = {d: make_labels(rng, n, style) for d, n in size.items()}
+    return call
+
+
+def order_sweep_calls(rng):
+    """2 x n and n layouts, weights along the longer dimension stored reversed / rotated / shuffled, with the event rate
+    and the forecast quality varying along that dimension (so a weight on the wrong label shows in POD, POFD and AUC)"""
+    calls = []
+    for n in (2, 3, 4, 5):
+        for perm in {tuple(range(n))[::-1], tuple(list(range(1, n)) + [0]), tuple(make_perm(rng, n))}:
+            for two_d in (False, True):
+                m = 3 if two_d else 1
+                dims, shape = (["a", "b"], [n, m]) if two_d else (["a"], [n])
+                f, o = [], []
+                for i in range(n):
+                    for _ in range(m):
+                        ob = float(rng.choice([0, 1]))
+                        o.append(ob if rng.random() < 0.93 else NAN)
+                        good = rng.random() < i / max(1, n - 1)
+                        f.append((0.75 if ob == 1 else 0.25) if good else rng.choice(POOL))
+                ws = rng.sample([0.5, 1.0, 2.0, 3.0, 4.0, 8.0], n)
+                c = {"dims": dims, "shape": shape, "fcst_dims": list(dims), "fcst": f, "obs_dims": list(dims), "obs": o,
+                     "weights_dims": ["a"], "weights": ws, "thresholds": [0.0, 0.25, 0.5, 0.75, 1.0], "check_args": True,
+                     "store_order": {"weights": {"a": list(perm)}}}
+                if rng.random() < 0.5:
+                    c["labels"] = {"a": make_labels(rng, n, "lat-descending")}
+                if two_d and rng.random() < 0.5:
+                    c["preserve_dims"] = ["b"] if rng.random() < 0.5 else ["a"]
+                calls.append(c)
+    return calls
+
+
+def misordered(call):
+    """[operand names] that store a dimension in another order than the forecast does (fcst: than the label order)"""
+    so = call.get("store_order") or {}
+    f = so.get("fcst") or {}
+    out = []
+    for who, ds in so.items():
+        for d, p in ds.items():
+            ref = f.get(d, list(range(len(p)))) if who != "fcst" else list(range(len(p)))
+            if list(p) != list(ref):
+                out.append(who)
+                break
+    return out
+
+
 def describe(call):
     return dict(call)
 
@@ -467,6 +622,12 @@ def tag_inputs(ctx, call):
             ctx.tag("fcst-eq-threshold-rounded-to-its-dtype")
     if call.get("obs_dtype") is not None:
         ctx.tag("obs-dtype:" + str(call["obs_dtype"]))
+    for who in misordered(call):
+        ctx.tag("labels-stored-in-another-order:" + who)
+        if who == "weights" and len({v for v in call["weights"] if not math.isnan(v)}) > 1:
+            ctx.tag("non-constant-weights-stored-in-another-order")
+    if call.get("labels"):
+        ctx.tag("non-default-labels")
 
 
 def nontrivial(res):
@@ -486,6 +647,7 @@ def correspondence(ctx):
     calls = [gen_call(rng, complete=rng.random() < 0.3) for _ in range(ctx.n(220, 5000))]
     calls += [gen_call(rng, malformed=True) for _ in range(ctx.n(40, 700))]
     calls += [gen_dtype_call(rng, complete=rng.random() < 0.3) for _ in range(ctx.n(70, 1500))]
+    calls += [gen_order_call(rng, complete=rng.random() < 0.3) for _ in range(ctx.n(60, 1200))]
     ops, idx = [], []
     for ci, c in enumerate(calls):
         fv, ov = all_vals(c)
@@ -567,6 +729,11 @@ class Checker:
             if tr and tr[0][2] is not None:
                 small["weights_dims"] = ["k"]
                 small["weights"] = [p[2] for p in tr]
+            if call.get("store_order") and len(tr) >= 2:
+                # the same pairs as one labelled 1-D call whose weights / obs store the labels in reverse
+                who = [w for w in misordered(call) if w != "fcst"] or ["obs"]
+                small["store_order"] = {w: {"k": list(range(len(tr)))[::-1]} for w in who
+                                        if w != "weights" or "weights" in small}
             sub = Checker(core.Ctx("C14", "quick", 0))
             sub.minimising = True
             try:
@@ -776,6 +943,8 @@ def oracle(ctx, boost):
     calls += [gen_call(rng, complete=rng.random() < 0.5, hairy=True) for _ in range(ctx.n(60, 1200) * k)]
     calls += [gen_dtype_call(rng, complete=rng.random() < 0.5) for _ in range(ctx.n(90, 2000) * k)]
     calls += dims_sweep_calls(rng)
+    calls += [gen_order_call(rng, complete=rng.random() < 0.5) for _ in range(ctx.n(80, 1500) * k)]
+    calls += order_sweep_calls(rng)
     ch.run(calls)
     nmax = 5 if (ctx.thorough or boost) else 3
     ctx.exhaustive.append(f"all forecast vectors over the pool {{0,1/4,1/2,1}} x all binary obs vectors, n <= {nmax}, "
@@ -791,6 +960,8 @@ def oracle(ctx, boost):
                           "stored values (a stored value below its threshold is not an event); int64 / int8 / uint8 / bool "
                           "forecasts: all 0/1 vectors x all binary obs vectors against {0,0.1,0.5,0.9,1} and {0,1/3,1,5/4}")
     ch.run(exhaustive_dtype_calls(hmax))
+    ctx.exhaustive.append("weights along a dimension of n = 2..5 labels stored reversed / rotated / shuffled against the data "
+                          "(1-D and n x 3, forecast skill varying along it): every point is the label-aligned weighted count")
     ctx.exhaustive.append("5 layouts where obs carries a dimension the forecast lacks x every reduce_dims / preserve_dims "
                           "subset of the data dimensions: one curve per label of every kept dimension")
 
